@@ -1211,3 +1211,79 @@ func bytetreeFacts() {
 }
 
 func init() { sections = append(sections, bytetreeFacts) }
+
+// ---------------------------------------------------------------------------
+// the row format: what fileStore.doWrite writes, in order, and the guard on the key length in table.doInsert /
+// DB.InsertRaw (Model/RowCodec.v transcribes the format; its round-trip theorem needs len(key) < 2^16)
+// ---------------------------------------------------------------------------
+func rowFormatFacts() {
+	out.WriteString("\n(* ---- row format of fileStore.doWrite and the key-length guard: row_store.go, insert.go ---- *)\n")
+	var writes []string
+	if fd := funcDecl(parse("row_store.go"), "fileStore", "doWrite"); fd != nil {
+		var walk func(n ast.Node, inLoop bool)
+		walk = func(n ast.Node, inLoop bool) {
+			ast.Inspect(n, func(m ast.Node) bool {
+				switch x := m.(type) {
+				case *ast.RangeStmt:
+					if x != n {
+						walk(x.Body, true)
+						return false
+					}
+				case *ast.CallExpr:
+					p := selectorPath(x.Fun)
+					star := ""
+					if inLoop {
+						star = " *"
+					}
+					if p == "binary.Write" && len(x.Args) == 3 && exprText(x.Args[0]) == "o" {
+						writes = append(writes, exprText(x.Args[2])+star)
+					} else if p == "o.Write" && len(x.Args) == 1 {
+						writes = append(writes, "bytes "+exprText(x.Args[0])+star)
+					}
+				}
+				return true
+			})
+		}
+		walk(fd.Body, false)
+	} else {
+		unsupported = append(unsupported, "gen_row_writes")
+	}
+	fmt.Fprintf(&out, "Definition gen_row_writes : list string := %s.\n", quoteStrs(writes))
+	// const maxKeyLength = 1<<16 - 1 ; guards `len(key) > maxKeyLength` (doInsert) and `len(dims) > maxKeyLength` (InsertRaw)
+	f := parse("insert.go")
+	maxKey := int64(-1)
+	for _, d := range f.Decls {
+		gd, ok := d.(*ast.GenDecl)
+		if !ok || gd.Tok != token.CONST {
+			continue
+		}
+		for _, sp := range gd.Specs {
+			vs := sp.(*ast.ValueSpec)
+			for i, n := range vs.Names {
+				if n.Name == "maxKeyLength" && i < len(vs.Values) {
+					switch exprText(vs.Values[i]) {
+					case "1<<16 - 1", "1<<16-1", "65535", "math.MaxUint16":
+						maxKey = 65535
+					}
+				}
+			}
+		}
+	}
+	guards := []string{}
+	for _, fn := range []struct{ recv, name string }{{"table", "doInsert"}, {"DB", "InsertRaw"}} {
+		if fd := funcDecl(f, fn.recv, fn.name); fd != nil {
+			ast.Inspect(fd.Body, func(n ast.Node) bool {
+				if ifs, ok := n.(*ast.IfStmt); ok {
+					c := exprText(ifs.Cond)
+					if strings.HasSuffix(c, "> maxKeyLength") && returnsInBody(ifs.Body) {
+						guards = append(guards, fn.name+": "+c)
+					}
+				}
+				return true
+			})
+		}
+	}
+	fmt.Fprintf(&out, "Definition gen_max_key_length : Z := %d.\nDefinition gen_key_guards : list string := %s.\n", maxKey, quoteStrs(guards))
+}
+
+func init() { sections = append(sections, rowFormatFacts) }
